@@ -243,15 +243,17 @@ pub fn a14_sock_cross() {
 // C15
 // ------------------------------------------------------------------------------------------------
 
-/// records every byte written to it
+/// folds every byte written to it (count, xor, wrapping sum, position-weighted sum): identical
+/// write sequences give identical folds, so "equal records => equal folds" never alarms falsely
 pub struct RecHasher {
-    pub buf: [u8; 96],
     pub n: usize,
-    pub overflow: bool,
+    pub x: u8,
+    pub s: u8,
+    pub w: u32,
 }
 impl RecHasher {
     pub fn new() -> Self {
-        RecHasher { buf: [0; 96], n: 0, overflow: false }
+        RecHasher { n: 0, x: 0, s: 0, w: 0 }
     }
 }
 impl std::hash::Hasher for RecHasher {
@@ -260,12 +262,13 @@ impl std::hash::Hasher for RecHasher {
     }
     fn write(&mut self, bytes: &[u8]) {
         let l = bytes.len();
-        if self.n + l > 96 {
-            self.overflow = true;
-            return;
-        }
-        self.buf[self.n..self.n + l].copy_from_slice(bytes);
-        self.n += l;
+        assert!(l <= 40, "harness bound: hashed chunk longer than 40 bytes");
+        rep40!(|i: usize| if i < l {
+            self.x ^= bytes[i];
+            self.s = self.s.wrapping_add(bytes[i]);
+            self.w = self.w.wrapping_add((self.n as u32 + 1).wrapping_mul(bytes[i] as u32));
+            self.n += 1;
+        });
     }
 }
 
@@ -293,19 +296,19 @@ pub fn a15_eq_hash() {
     let b = any_rec_small();
     let eq = a == b;
     let eq_rev = b == a;
-    let triple = a.seq() == b.seq() && a.node_id() == b.node_id() && a.signature() == b.signature();
+    let triple = a.seq() == b.seq() && sym::eq32(&a.node_id().raw(), &b.node_id().raw()) && sym::eq_short(a.signature(), b.signature());
     let mut ha = RecHasher::new();
     let mut hb = RecHasher::new();
     a.hash(&mut ha);
     b.hash(&mut hb);
-    let same_hash = ha.n == hb.n && ha.buf == hb.buf && !ha.overflow && !hb.overflow;
+    let same_hash = ha.n == hb.n && ha.x == hb.x && ha.s == hb.s && ha.w == hb.w;
     let c = a.clone();
-    let clone_eq = c == a && c.seq() == a.seq() && c.node_id() == a.node_id() && c.signature() == a.signature()
+    let clone_eq = c == a && c.seq() == a.seq() && sym::eq32(&c.node_id().raw(), &a.node_id().raw()) && sym::eq_short(c.signature(), a.signature())
         && c.get_raw_rlp("k") == a.get_raw_rlp("k");
     let refl = a == a;
     vcover!(eq, "equal records");
-    vcover!(!eq && a.seq() == b.seq() && a.node_id() == b.node_id(), "differ in signature only");
-    vcover!(!eq && a.signature() == b.signature() && a.node_id() == b.node_id(), "differ in seq only");
+    vcover!(!eq && a.seq() == b.seq() && sym::eq32(&a.node_id().raw(), &b.node_id().raw()), "differ in signature only");
+    vcover!(!eq && sym::eq_short(a.signature(), b.signature()) && sym::eq32(&a.node_id().raw(), &b.node_id().raw()), "differ in seq only");
     core::mem::forget(a);
     core::mem::forget(b);
     core::mem::forget(c);
@@ -331,31 +334,28 @@ pub fn a15_transitive() {
     assert!(!(ab && bc) || ac, "C15: equality is transitive");
 }
 
-/// record with content {k: 81 p, <key1>: <string item>} with symbolic key byte and value
-fn any_rec_content() -> (Enr<MKey>, u64, [u8; 2], u8, [u8; 3], usize) {
-    let mut m: Map = BTreeMap::new();
-    let kv: [u8; 2] = sym::bytes::<2>();
-    m.insert(b"k".to_vec(), mk_bytes(&kv));
+/// record with ONE pair <name>: 81 xx (symbolic one-byte name and value byte), symbolic seq
+fn any_rec_content() -> (Enr<MKey>, u64, u8, u8) {
     let name = sym::u8();
-    sym::assume(name >= b'l' && name <= b'z');
-    let v: [u8; 3] = sym::bytes::<3>();
-    let n = sym::usize();
-    sym::assume(n >= 1 && n <= 3 && ref_single_item(&v[..n]));
-    m.insert(vec![name], mk_bytes(&v[..n]));
+    sym::assume(name >= b'a' && name <= b'z');
+    let v = sym::u8();
+    sym::assume(v >= 0x80);
+    let mut sm = SortedMap::new();
+    sm.push(&[name], mk_bytes(&[0x81, v]));
     let seq = sym::u64();
     let id: [u8; 32] = sym::bytes::<32>();
-    (Enr::<MKey>::verif_from_parts(seq, NodeId::new(&id), m, any_sig()), seq, kv, name, v, n)
+    (Enr::<MKey>::verif_from_parts(seq, NodeId::new(&id), sm.done(), any_sig()), seq, name, v)
 }
 
 /// compare_content <=> same seq and same pairs, regardless of signature and node id
 #[cfg_attr(kani, kani::proof)]
 pub fn a15_compare_content() {
-    let (a, sa, ka, na, va, la) = any_rec_content();
-    let (b, sb, kb, nb, vb, lb) = any_rec_content();
+    let (a, sa, na, va) = any_rec_content();
+    let (b, sb, nb, vb) = any_rec_content();
     let cc = a.compare_content(&b);
     let cc_rev = b.compare_content(&a);
-    let same = sa == sb && ka == kb && na == nb && la == lb && va[..la] == vb[..lb];
-    vcover!(cc && a.signature() != b.signature(), "same content, other signature");
+    let same = sa == sb && na == nb && va == vb;
+    vcover!(cc && !sym::eq_short(a.signature(), b.signature()), "same content, other signature");
     vcover!(!cc && sa == sb && na == nb, "same seq and keys, other value");
     core::mem::forget(a);
     core::mem::forget(b);
@@ -367,12 +367,13 @@ pub fn a15_compare_content() {
 /// (same seq, same leading pairs): never equal
 #[cfg_attr(kani, kani::proof)]
 pub fn a15_compare_lengths() {
-    let seq = sym::u64();
-    let kv: [u8; 2] = sym::bytes::<2>();
-    let v: [u8; 2] = sym::bytes::<2>();
-    sym::assume(ref_single_item(&v));
-    let w: [u8; 2] = sym::bytes::<2>();
-    sym::assume(ref_single_item(&w));
+    let seq = sym::u8() as u64;
+    let kv: [u8; 2] = [0x81, sym::u8()];
+    sym::assume(kv[1] >= 0x80);
+    let v: [u8; 2] = [0x81, sym::u8()];
+    sym::assume(v[1] >= 0x80);
+    let w: [u8; 2] = [0x81, sym::u8()];
+    sym::assume(w[1] >= 0x80);
     let mk = |n: usize| {
         let mut sm = SortedMap::new();
         sm.push(b"k", mk_bytes(&kv));
